@@ -1,24 +1,76 @@
 //! Kani harnesses: selector AST leaf semantics (C04, C15). Child module of `selectors_vm::ast`.
 use super::*;
 
-/// C04: `NthChild::has_index(i)` ⇔ ∃ n ≥ 0. step·n + offset = i, over the full i32³ space
-/// (index ≥ 1, as produced by the child counters). Reference computed in i64.
-// @verif props=C04,C15 fns=NthChild::has_index
-#[kani::proof]
-fn c04_nth_child_has_index_matches_an_plus_b() {
-    let step: i32 = kani::any();
-    let offset: i32 = kani::any();
-    let index: i32 = kani::any();
-    kani::assume(index >= 1);
-    let got = NthChild::new(step, offset).has_index(index);
+const W: i32 = 1 << 10; // @thorough 4096
+
+fn reference(step: i32, offset: i32, index: i32) -> bool {
+    // ∃ n ≥ 0. step·n + offset = index, over mathematical integers (i64 is wide enough)
     let d = index as i64 - offset as i64;
-    let want = if step == 0 {
+    if step == 0 {
         d == 0
     } else {
         let s = step as i64;
         d % s == 0 && d / s >= 0
-    };
-    assert!(got == want);
+    }
+}
+
+/// a value within W of one of the anchors 0, i32::MIN, i32::MAX
+fn near_anchor() -> i32 {
+    let k: u8 = kani::any();
+    let delta: i32 = kani::any();
+    kani::assume(delta >= 0 && delta <= W);
+    match k % 4 {
+        0 => delta,
+        1 => -delta,
+        2 => i32::MIN + delta,
+        _ => i32::MAX - delta,
+    }
+}
+
+/// C04: `NthChild::has_index(i)` ⇔ ∃ n ≥ 0. step·n + offset = i. A fully symbolic i32³ query needs a
+/// 64-bit symbolic divider and does not finish in CBMC (> 600 s), so the space is cut into windows:
+/// here every operand is within W of 0 (all sign combinations).
+// @verif props=C04,C15 fns=NthChild::has_index
+#[kani::proof]
+fn c04_nth_child_has_index_small_window() {
+    let step: i32 = kani::any();
+    let offset: i32 = kani::any();
+    let index: i32 = kani::any();
+    kani::assume(step >= -W && step <= W && offset >= -W && offset <= W && index >= 1 && index <= W);
+    let got = NthChild::new(step, offset).has_index(index);
+    assert!(got == reference(step, offset, index));
     kani::cover!(got && step > 1 && offset < 0);
+    kani::cover!(got && step < -1);
     kani::cover!(!got && step < 0);
+}
+
+/// ... and here offset and index are within W of 0, i32::MIN or i32::MAX (where `index - offset`
+/// leaves the i32 range) with a step within W of 0: this window contains the overflow that F2 fixed.
+// @verif props=C04,C15 fns=NthChild::has_index
+#[kani::proof]
+fn c04_nth_child_has_index_extreme_offsets() {
+    let step: i32 = kani::any();
+    kani::assume(step >= -W && step <= W);
+    let offset = near_anchor();
+    let index = near_anchor();
+    kani::assume(index >= 1);
+    let got = NthChild::new(step, offset).has_index(index);
+    assert!(got == reference(step, offset, index));
+    kani::cover!(got && offset < -W && index > 0 && step > 1);
+    kani::cover!(!got && offset > W);
+}
+
+/// ... and extreme steps (within W of i32::MIN / i32::MAX) with operands near the anchors.
+// @verif props=C04,C15 fns=NthChild::has_index
+#[kani::proof]
+fn c04_nth_child_has_index_extreme_steps() {
+    let step = near_anchor();
+    kani::assume(step > W || step < -W);
+    let offset = near_anchor();
+    let index = near_anchor();
+    kani::assume(index >= 1);
+    let got = NthChild::new(step, offset).has_index(index);
+    assert!(got == reference(step, offset, index));
+    kani::cover!(got && index != offset);
+    kani::cover!(got && index == offset);
 }
